@@ -11,6 +11,7 @@ import (
 	"crypto/tls"
 	"crypto/x509"
 	"crypto/x509/pkix"
+	"encoding/base64"
 	"encoding/pem"
 	"fmt"
 	"math/big"
@@ -18,6 +19,7 @@ import (
 	"net/rpc"
 	"os"
 	"path/filepath"
+	"strings"
 	"sync"
 	"time"
 
@@ -26,6 +28,8 @@ import (
 	"google.golang.org/grpc"
 	"google.golang.org/grpc/credentials"
 	"google.golang.org/grpc/credentials/insecure"
+	"google.golang.org/grpc/health"
+	"google.golang.org/grpc/health/grpc_health_v1"
 	"verif/harness/hk"
 	"verif/harness/sx"
 	"verif/harness/vp"
@@ -34,7 +38,7 @@ import (
 type mtCaseTLS struct {
 	Proto string `json:"proto"`
 	Mux   bool   `json:"mux"`
-	Kind  string `json:"kind"` // intruders | impostor-nocert
+	Kind  string `json:"kind"` // intruders | impostor-nocert | impostor-chain
 }
 
 func init() { families["mtls"] = runMTLS }
@@ -212,6 +216,10 @@ func runOneMTLS(c mtCaseTLS, base string, idx int, put func(in, obs sx.V)) {
 	if c.Proto == "grpc" {
 		mainPath = 1
 	}
+	if c.Kind == "impostor-chain" {
+		rec(mainPath, 10, true, impostorChainAnswered(c.Proto, pdir))
+		return
+	}
 	if c.Kind == "impostor-nocert" {
 		cl, caller, err := startVP(vpOpts{Proto: c.Proto, Mux: c.Mux, AutoMTLS: true, TmpDir: pdir, Plugin: map[string]interface{}{"drop_client_cert": true}, StartTO: 5 * time.Second})
 		answered := false
@@ -325,6 +333,7 @@ func runOneMTLS(c mtCaseTLS, base string, idx int, put func(in, obs sx.V)) {
 
 func runMTLS(o opts) error {
 	cs := []mtCaseTLS{{"netrpc", false, "intruders"}, {"grpc", false, "intruders"}, {"grpc", true, "intruders"},
+		{"netrpc", false, "impostor-chain"}, {"grpc", false, "impostor-chain"},
 		{"netrpc", false, "impostor-nocert"}, {"grpc", false, "impostor-nocert"}, {"grpc", true, "impostor-nocert"}}
 	if o.cases != "" {
 		cs = nil
@@ -361,4 +370,72 @@ func runMTLS(o opts) error {
 	}
 	_ = plugin.ProtocolGRPC
 	return nil
+}
+
+// impostorChainAnswered: an impostor plugin that announces certificate A (public: it is printed on stdout by the genuine
+// plugin) but holds only the key of another certificate B, and serves with the list [B, A].  The AutoMTLS host is
+// launched against it through a scripted runner; the answer is whether a Ping of the host was answered.
+func impostorChainAnswered(proto, dir string) bool {
+	a, b := selfSigned(true), selfSigned(true)
+	chain := tls.Certificate{Certificate: [][]byte{b.Certificate[0], a.Certificate[0]}, PrivateKey: b.PrivateKey}
+	scfg := &tls.Config{Certificates: []tls.Certificate{chain}, ClientAuth: tls.RequestClientCert, MinVersion: tls.VersionTLS12}
+	sock := filepath.Join(dir, "impostor.sock")
+	ln, err := net.Listen("unix", sock)
+	if err != nil {
+		return false
+	}
+	defer ln.Close()
+	if proto == "grpc" {
+		gs := grpc.NewServer(grpc.Creds(credentials.NewTLS(scfg)))
+		hs := health.NewServer()
+		hs.SetServingStatus("plugin", grpc_health_v1.HealthCheckResponse_SERVING)
+		grpc_health_v1.RegisterHealthServer(gs, hs)
+		go gs.Serve(ln)
+		defer gs.Stop()
+	} else {
+		go func() {
+			for {
+				conn, err := ln.Accept()
+				if err != nil {
+					return
+				}
+				go func() {
+					defer func() { recover() }()
+					tc := tls.Server(conn, scfg)
+					tc.SetDeadline(time.Now().Add(5 * time.Second))
+					if tc.Handshake() != nil {
+						conn.Close()
+						return
+					}
+					tc.SetDeadline(time.Time{})
+					(&plugin.RPCServer{Plugins: map[string]plugin.Plugin{}, Stdout: strings.NewReader(""), Stderr: strings.NewReader("")}).ServeConn(tc)
+				}()
+			}
+		}()
+	}
+	sr := hk.NewScripted()
+	line := fmt.Sprintf("1|1|unix|%s|%s|%s\n", sock, proto, base64.RawStdEncoding.EncodeToString(a.Certificate[0]))
+	sr.OnStart = func(s *hk.Scripted) { s.StdoutW.Write([]byte(line)) }
+	cl := plugin.NewClient(&plugin.ClientConfig{
+		HandshakeConfig:  plugin.HandshakeConfig{ProtocolVersion: 1, MagicCookieKey: vpCookieKey, MagicCookieValue: vpCookieVal},
+		Plugins:          plugin.PluginSet{},
+		AllowedProtocols: []plugin.Protocol{plugin.ProtocolNetRPC, plugin.ProtocolGRPC},
+		AutoMTLS:         true,
+		RunnerFunc:       sr.RunnerFunc(nil),
+		Logger:           hk.QuietLogger(),
+		StartTimeout:     5 * time.Second,
+		UnixSocketConfig: &plugin.UnixSocketConfig{TempDir: dir},
+	})
+	defer func() { boundedKill(cl); sr.Exit() }()
+	answered := false
+	within(12*time.Second, func() {
+		rpcc, err := cl.Client()
+		if err != nil {
+			return
+		}
+		if rpcc.Ping() == nil {
+			answered = true
+		}
+	})
+	return answered
 }
